@@ -310,7 +310,12 @@ func c13World(t *testing.T, r *simcore.Run) any {
 			curAttemptReq = d
 		case w.srv:
 			if d.Dst.Addr().Unmap() == netip.MustParseAddr(scCliIP).Unmap() {
-				// the client sits in another AS: whatever the server sends it goes back to the
+				if fp := parseSCION(d.Payload); d.SrcConn.Local().Port() == scEndhost && fp.ok && fp.isUDP {
+					// the forwarder passing on a SCION/UDP packet that names another host: not a
+					// reply, and the property says nothing about it
+					return
+				}
+				// the client sits in another AS: every reply of the server goes back to the
 				// previous hop, never straight to the host named in the SCION header
 				r.Fail("C13", "reply/not-to-previous-hop", "the server sent a datagram straight to the client host %v instead of the previous hop", d.Dst)
 				return
